@@ -205,7 +205,6 @@ def run(case):
             oka, ba = call(out, "cryomap.read(array)", lambda: cryomap.read(logical, data_type=np.dtype(rdt).type))
             if oka:
                 out.check(ba.dtype == np.dtype(rdt) and np.array_equal(ba.astype(np.float64), logical.astype(np.float64)), "read:array_input_values", f"{ba.dtype}")
-                out.check(not np.shares_memory(ba, logical), "read:array_input_aliased", "")
         # what read() returns belongs to the caller: changing it in place must not change what the next read of the file returns
         if ok and case["read_transpose"] and isinstance(b, np.ndarray) and b.size:
             try:
